@@ -411,3 +411,49 @@ package document
 //@ props C09
 //@ requires iter != nil
 //@ modifies nothing
+
+// ---------------------------------------------------------------- iterators over caller-supplied callbacks
+// The callbacks are caller code: the engine assumes that they return and write no document memory (the callback-purity
+// assumption that every evidence file lists) and does not model a nil function value (a nil fn / predicate panics in the real code: caller error, reported).
+// What is proved is the part the library owns: no index leaves the grid (ragged tables included), nothing that existed
+// before the call is written, the iterator the loop drives is the function's own.
+
+//@ func (*Table).ForEach
+//@ props C09
+//@ requires t != nil
+//@ modifies nothing
+//@ loop 1
+//@   invariant iterator != nil && fresh(iterator) && iterator.table == t && unchangedHeap()
+
+//@ func (*Table).ForEachInRow
+//@ props C09
+//@ requires t != nil
+//@ modifies nothing
+//@ ensures !(0 <= rowIndex && rowIndex < len(t.Rows)) ==> err != nil
+//@ loop 1
+//@   invariant 0 <= col && col <= colCount && unchangedHeap()
+//@   decreases colCount - col
+
+//@ func (*Table).ForEachInColumn
+//@ props C09
+//@ requires t != nil
+//@ modifies nothing
+//@ ensures !(0 <= colIndex && len(t.Rows) > 0 && colIndex < len(t.Rows[0].Cells)) ==> err != nil
+//@ loop 1
+//@   invariant 0 <= row && row <= rowCount && unchangedHeap()
+//@   decreases rowCount - row
+
+//@ func (*Table).FindCells
+//@ props C09
+//@ requires t != nil
+//@ modifies nothing
+
+//@ func (*Table).FindCellsByText
+//@ props C09
+//@ requires t != nil
+//@ modifies nothing
+
+//@ func (*Table).FindCellsByText$1
+//@ props C09
+//@ modifies nothing
+//@ ensures exactMatch ==> (result <==> text == searchText)
